@@ -1962,7 +1962,9 @@ impl Monitor {
                         // idles: everything runnable must have run
                         for (i, d) in self.idles.iter().enumerate() {
                             if !d.cancelled && d.ran == 0 && d.not_before <= self.disp_no {
-                                return viol("C13.once", &["C13"], format!("idle #{i} did not run in a dispatch that returned Ok"));
+                                // C08: insert_idle issued from a callback must have the effect it has outside a dispatch
+                                let tags: &[&'static str] = if d.inserted_in_cb { &["C13", "C08"] } else { &["C13"] };
+                                return viol("C13.once", tags, format!("idle #{i}{} did not run in a dispatch that returned Ok", if d.inserted_in_cb { " (inserted from a callback)" } else { "" }));
                             }
                         }
                         for d in self.idles.iter_mut() {
@@ -2089,6 +2091,11 @@ impl Monitor {
                         format!("into_source_inner on the kept dispatcher of source #{src} ({:?}, loop dropped: {}) failed: the loop still holds it", m.st, self.loop_dropped),
                     );
                 }
+                None
+            }
+            Ev::Exhausted => {
+                self.stop = true;
+                self.facts.foreign = Some("callback budget exhausted".into());
                 None
             }
             Ev::Adapted { a, nonblocking_after } => {
